@@ -344,17 +344,49 @@ def main(argv: list[str]) -> int:
             return 0
         return 1
 
+    # source-level tie (harness/anchors.py): which anchored functions differ from the tree the model was written
+    # against?  A difference is never a failure; it multiplies the case budget (the search goes where the code moved).
+    src_changed = None
+    base_budget = 1.0
+    try:
+        import anchors
+        src_changed = anchors.changed(pid, REPO)
+        if src_changed:
+            base_budget = float(os.environ.get("VERIF_ESCALATE", "4" if tier == "quick" else "2"))
+        extra["source_fingerprint"] = {
+            "baseline": "harness/anchors_baseline.json",
+            "anchored_functions_changed_since_baseline": src_changed if src_changed is not None else "no baseline",
+            "case_budget_multiplier": base_budget}
+    except Exception as ex:
+        extra["source_fingerprint"] = {"error": repr(ex)[:200]}
+
     def explore(budget: float) -> Ctx:
         ctx = Ctx(pid, tier, seed, lean, budget)
         mod.run(ctx)
         return ctx
 
+    cov = None
     try:
-        ctx = explore(1.0)
+        import anchors
+        cov = anchors.LineCoverage(pid, REPO)
+        cov.start()
+    except Exception:
+        cov = None
+    try:
+        ctx = explore(base_budget)
     except Exception:
         traceback.print_exc()
         print("infrastructure error in the harness", file=sys.stderr)
         return 2
+    finally:
+        if cov is not None:
+            try:
+                cov.stop()
+                extra["anchored_line_coverage"] = cov.report()
+            except Exception as ex:
+                extra["anchored_line_coverage"] = {"measured": False, "why": repr(ex)[:200]}
+    if src_changed:
+        ctx.notes.append(f"{len(src_changed)} anchored function(s) differ from the fingerprint baseline: case budget x{base_budget:g}")
 
     proofs_ok = lean.proofs_ok
     if not ctx.spec_failures and (not proofs_ok or ctx.disagreements):
